@@ -588,6 +588,16 @@ func (c StackCfg) effTimeout() time.Duration {
 	return time.Duration(c.TimeoutMs) * time.Millisecond
 }
 
+// unwindWait: how far the clock is advanced per unwinding round so that every configured timeout has fired. A
+// timeout beyond an hour ("wait for ever", e.g. time.Duration(math.MaxInt64)) cannot be waited out; there only
+// releases and cancellations unwind a case.
+func (c StackCfg) unwindWait() time.Duration {
+	if t := c.effTimeout(); t > 0 && t < time.Hour {
+		return t + 2*time.Second
+	}
+	return 2 * time.Second
+}
+
 // ---------------------------------------------------------------------------------------------
 // virtual-time world
 
@@ -772,10 +782,15 @@ func (w *vtWorld) release(c *vtCaller, outcome int) {
 // unwind completes everything, lets every blocked caller return (cancel + advance the clock),
 // and leaves no goroutine behind. It returns a description when something cannot be unwound.
 func (w *vtWorld) unwind(maxWait time.Duration) string {
-	for round := 0; round < 50; round++ {
+	// Rounds go on for as long as they make progress (each release can serve one more waiter, who then holds a token
+	// the next round completes); three rounds in a row that change nothing end the attempt.
+	idle, lastBlocked := 0, -1
+	for round := 0; round < 20000 && idle < 3; round++ {
 		synctest.Wait()
+		released := 0
 		for _, c := range w.heldByHarness() {
 			w.release(c, 1)
+			released++
 		}
 		synctest.Wait()
 		bl := w.blocked()
@@ -797,6 +812,13 @@ func (w *vtWorld) unwind(maxWait time.Duration) string {
 		if len(w.blocked()) > 0 || selfHolding {
 			time.Sleep(maxWait)
 		}
+		synctest.Wait()
+		if n := len(w.blocked()); released == 0 && n == lastBlocked && !selfHolding {
+			idle++
+		} else {
+			idle = 0
+			lastBlocked = n
+		}
 	}
 	synctest.Wait()
 	if bl := w.blocked(); len(bl) > 0 {
@@ -805,8 +827,11 @@ func (w *vtWorld) unwind(maxWait time.Duration) string {
 			ids = append(ids, c.ID)
 		}
 		sort.Ints(ids)
+		if len(ids) > 50 {
+			ids = ids[:50]
+		}
 		// last resort so that the bubble can end: nothing more we can do from the outside
-		return fmt.Sprintf("callers %v still blocked after completing every token, cancelling every context and advancing the clock by %v", ids, maxWait*50)
+		return fmt.Sprintf("callers %v still blocked after completing every token, cancelling every context and advancing the clock by %v per round until nothing changed any more", ids, maxWait)
 	}
 	return ""
 }
